@@ -38,6 +38,37 @@ CONFIGS = {
 KIND = {"caltech": 0, "jpl": 1, "office001": 2}
 
 
+# ground truth written down from the site documentation (station lists of the Caltech pods, JPL
+# sub-panels and their ratings); the factories are checked against it, it is not derived from them
+CALTECH_CC = ["CA-322", "CA-493", "CA-496", "CA-320", "CA-495", "CA-321", "CA-323", "CA-494"]
+CALTECH_AV = ["CA-324", "CA-325", "CA-326", "CA-327", "CA-489", "CA-490", "CA-491", "CA-492"]
+POD_TRUTH = {"CC Pod": (80, lambda s: s in CALTECH_CC), "AV Pod": (80, lambda s: s in CALTECH_AV)}
+PANEL_TRUTH = {
+    "First Floor SP1": (100, lambda s: s in ("AG-1F11", "AG-1F12", "AG-1F13", "AG-1F14")),
+    "First Floor SP2": (100, lambda s: s in ("AG-1F01", "AG-1F02", "AG-1F03", "AG-1F04", "AG-1F05", "AG-1F06")),
+    "Third Floor Panel": (225, lambda s: s.startswith("AG-3F")),
+    "Fourth Floor Panel": (225, lambda s: s.startswith("AG-4F")),
+}
+
+
+def truth(site, ids, kwargs):
+    """[(capacity kW, station indices)] per transformer, [(rating A, indices)] per pod, per sub-panel"""
+    trs, pods, panels = [], [], []
+    if site in ("caltech", "office001"):
+        trs.append((kwargs["transformer_cap"], list(range(len(ids)))))
+    else:
+        trs.append(transformer_truth(site, "First Floor", ids, kwargs))
+        trs.append(transformer_truth(site, "Third/Fourth", ids, kwargs))
+        for k in ("First Floor SP1", "First Floor SP2", "Third Floor Panel", "Fourth Floor Panel"):
+            r, f = PANEL_TRUTH[k]
+            panels.append((r, [i for i, x in enumerate(ids) if f(x)]))
+    if site == "caltech":
+        for k in ("CC Pod", "AV Pod"):
+            r, f = POD_TRUTH[k]
+            pods.append((r, [i for i, x in enumerate(ids) if f(x)]))
+    return trs, pods, panels
+
+
 def transformer_truth(site, prefix, ids, kwargs):
     """ground truth from the site documentation: (capacity in kW, stations behind the transformer)"""
     if site in ("caltech", "office001"):
@@ -72,8 +103,9 @@ def classify(site, names, ids, kwargs):
         if m:
             panels.setdefault(m.group(1), {})[m.group(2).upper()] = j
             continue
-        if nm.endswith("Pod"):
-            pods.append(j)
+        if nm in POD_TRUTH and site == "caltech":
+            r, f = POD_TRUTH[nm]
+            pods.append((j, r, [i for i, x in enumerate(ids) if f(x)]))
             continue
         unknown.append(j)
     trs, prims, pans = [], [], []
@@ -94,10 +126,11 @@ def classify(site, names, ids, kwargs):
             continue
         prims.append((d["A"], d["B"], d["C"], keys.index(k)))
     for k, d in panels.items():
-        if set(d) != set("ABC"):
+        if set(d) != set("ABC") or k not in PANEL_TRUTH or site != "jpl":
             unknown.extend(d.values())
             continue
-        pans.append((d["A"], d["B"], d["C"]))
+        r, f = PANEL_TRUTH[k]
+        pans.append((d["A"], d["B"], d["C"], r, [i for i, x in enumerate(ids) if f(x)]))
     return trs, prims, pans, pods, sorted(unknown)
 
 
@@ -125,8 +158,9 @@ def dump_one(site, basic, kwargs, idx):
         "{| t_a := %d; t_b := %d; t_c := %d; t_cap := %s; t_members := %s |}" % (
             a, b, c, q(cap), lst("%d" % i for i in mem)) for a, b, c, cap, mem in trs)
     text += "  s_primaries := %s;\n" % lst("((%d, %d, %d), %d)" % p for p in prims)
-    text += "  s_panels := %s;\n" % lst("(%d, %d, %d)" % p for p in pans)
-    text += "  s_pods := %s;\n" % lst("%d" % p for p in pods)
+    text += "  s_panels := %s;\n" % lst("((%d, %d, %d), %s, %s)" % (a, b, c, q(r), lst("%d" % i for i in mem))
+                                        for a, b, c, r, mem in pans)
+    text += "  s_pods := %s;\n" % lst("(%d, %s, %s)" % (j, q(r), lst("%d" % i for i in mem)) for j, r, mem in pods)
     text += "  s_unknown := %s\n|}.\n" % lst("%d" % p for p in unknown)
     info = dict(name=name, stations=len(ids), constraints=len(names), station_ids=ids, constraint_names=names,
                 params=kwargs, basic_evse=basic)
@@ -151,8 +185,8 @@ Record site := {
   s_vt : Q; s_rt : Q;                   (* network tolerances *)
   s_transformers : list transformer;
   s_primaries : list ((nat * nat * nat) * nat);   (* primary rows A,B,C and the transformer they belong to *)
-  s_panels : list (nat * nat * nat);    (* sub-panel line-current rows A,B,C *)
-  s_pods : list nat;                    (* pod rows *)
+  s_panels : list ((nat * nat * nat) * Q * list nat);   (* sub-panel line-current rows A,B,C, rating [A] per phase, stations *)
+  s_pods : list (nat * Q * list nat);   (* pod row, rating [A], stations of the pod *)
   s_unknown : list nat                  (* rows the dumper could not classify *)
 }.
 
